@@ -418,8 +418,175 @@ def clean_case(spec):
             "sample": {"kind": "clean", "callback": cbname, "coin": coin, "tip": tip}}
 
 
+# ------------------------------------------------------------------ faults in the middle of a run, and faults that hit many blocks
+IN_TRACE = "openat,read"
+
+
+def _judge_failure(p, dump, ref, what, log, vv, must_fail):
+    vv.extend(outcome(p, dump, ref, what))
+    if p.rc == 0:
+        if must_fail:
+            vv.append(viol("input-fault-exit0", "exit 0 although a block of the range could not be read (%s)" % what))
+        return
+    fetches = [e["height"] for e in harness.read_events(log) if e["ev"] == "fetch"]
+    m = harness.reported_error_height(p.err)
+    if m is None:
+        vv.append(viol("input-fault-no-height", "failure does not report the failing height (%s): %s" % (what, p.err[-200:].replace("\n", " | "))))
+    elif fetches and m != fetches[-1]:
+        vv.append(viol("input-fault-wrong-height", "reported height %s, the block being fetched when the fault hit was %d (%s)" % (m, fetches[-1], what)))
+
+
+def midrun_case(spec):
+    coin, cbname, kind = spec["coin"], spec["callback"], spec["kind"]
+    rng = random.Random("C10mid|%s|%s" % (spec["seed"], spec["n"]))
+    work = harness.fresh(os.path.join(spec["work"], "c%d" % spec["n"]))
+    d = os.path.join(work, "d")
+    binary = core.build("release")
+    v, counters, shapes = [], {"runs": 0}, set()
+    log = os.path.join(work, "ev.jsonl")
+    dump = os.path.abspath(os.path.join(work, "o"))
+    if kind == "bulk":
+        # one blk file holding N blocks of the range is missing / empty: N failures if somebody counts them, one failing run either way
+        N, head, tail = spec["blocks_lost"], 20, 24
+        chain = gen.simple_chain(rng, coin, head + N + tail, max_tx=1)
+        pls = [Placement(b, h, file=(0 if h < head else (1 if h < head + N else 2))) for h, b in chain]
+        datadir.write_datadir(d, COINS[coin], pls)
+        s, e = spec.get("start"), spec.get("end")
+        ref = reference_run(binary, d, coin, cbname, work, s, e)
+        counters["runs"] += 1
+        path = os.path.join(d, datadir.default_name(1, 5))
+        for fault in ("removed", "emptied", "cut-to-one-block"):
+            bak = path + ".bak"
+            os.rename(path, bak)
+            if fault == "emptied":
+                open(path, "wb").close()
+            elif fault == "cut-to-one-block":
+                shutil.copyfile(bak, path)
+                os.truncate(path, 8 + len(chain[head][1].ser()))
+            harness.fresh(dump)
+            p = harness.run_cb(binary, d, coin, cbname, dump, s, e, log=log, timeout=300)
+            counters["runs"] += 1
+            counters["bulk_faults"] = counters.get("bulk_faults", 0) + 1
+            what = "%s, blk file with the %d blocks %d..%d %s" % (cbname, N, head, head + N - 1, fault)
+            vv = []
+            _judge_failure(p, dump, ref, what, log, vv, True)
+            exp_h = head + (1 if fault == "cut-to-one-block" else 0)
+            m = harness.reported_error_height(p.err)
+            if p.rc != 0 and m is not None and m != exp_h and not vv:
+                vv.append(viol("input-fault-wrong-height", "reported height %s, first unreadable block is %d (%s)" % (m, exp_h, what)))
+            v.extend(vv)
+            shapes.add("%s|bulk-%s|lost=%d|%s" % (cbname, fault, N, "fail" if p.rc else "exit0"))
+            if os.path.exists(path):
+                os.unlink(path)
+            os.rename(bak, path)
+    elif kind == "syscall":
+        # one particular open / read of a blk file fails in the middle of the run (EMFILE when the descriptor table is full, EIO from
+        # a bad sector, ENOENT/EACCES when the file went away or changed owner after the start-up scan)
+        chain = gen.simple_chain(rng, coin, spec.get("blocks", 12), max_tx=3)
+        kw, _desc, _ = layouts.make_layout(rng, chain, coin, assign=spec.get("assign", "round_robin"), nfiles=3)
+        datadir.write_datadir(d, COINS[coin], xor_key=(rbytes(rng, 8) if spec.get("xor") else None), **kw)
+        ref = reference_run(binary, d, coin, cbname, work, None, None)
+        counters["runs"] += 1
+        paths = [os.path.abspath(os.path.join(d, n)) for n in sorted(os.listdir(d)) if n.startswith("blk")]
+        argv = harness.cli(binary, d, coin, cbname, dump)
+        tf = os.path.join(work, "trace.log")
+
+        def traced(inject):
+            harness.fresh(dump)
+            if os.path.exists(log):
+                os.unlink(log)
+            cmd = [strace.STRACE, "-f", "-y", "-qq", "-s", "0", "-o", tf, "-e", "trace=" + IN_TRACE]
+            if inject:
+                cmd += ["-e", "inject=" + inject]
+            for pth in paths:
+                cmd += ["-P", pth]
+            pr = core.run(cmd + argv, env={"RBP_VERIF_LOG": log}, timeout=300)
+            if pr.timed_out:
+                raise Inconclusive("watchdog fired under strace")
+            if "strace:" in pr.err and ("attach" in pr.err or "ptrace" in pr.err.lower()):
+                raise Inconclusive("strace could not trace: %s" % pr.err[-200:])
+            return pr, open(tf, errors="replace").read()
+        p0, t0 = traced(None)
+        counters["runs"] += 1
+        v.extend(outcome(p0, dump, ref, "undisturbed run under the input tracer"))
+        n_open, n_read = t0.count(" openat("), t0.count(" read(")
+        counters["input_syscalls_seen"] = n_open + n_read
+        plan_ = [("openat", k, err) for k in range(1, n_open + 1) for err in (("EMFILE", "ENOENT") if k % 2 else ("EIO", "EACCES"))]
+        rk = list(range(1, n_read + 1))
+        if spec.get("max_k") and len(rk) > spec["max_k"]:
+            rk = rk[:spec["max_k"] // 2] + rk[-spec["max_k"] // 2:]
+        plan_ += [("read", k, "EIO") for k in rk]
+        for call, k, err in plan_:
+            p, t = traced("%s:error=%s:when=%d" % (call, err, k))
+            counters["runs"] += 1
+            counters["input_syscall_faults"] = counters.get("input_syscall_faults", 0) + 1
+            hit = "(INJECTED)" in t
+            if hit:
+                counters["input_syscall_faults_hit"] = counters.get("input_syscall_faults_hit", 0) + 1
+            what = "%s with %s injected at %s #%d on the blk files (%d opens, %d reads in an undisturbed run)" % (cbname, err, call, k, n_open, n_read)
+            vv = []
+            _judge_failure(p, dump, ref, what, log, vv, hit)
+            v.extend(vv)
+            shapes.add("%s|%s-%s|%s|%s" % (cbname, call, err, "first" if k == 1 else "later", "fail" if p.rc else "exit0"))
+    else:
+        # a blk file disappears / shrinks while the run is under way (pruning node, a copy still in progress being restarted)
+        nblocks = spec.get("blocks", 1500)
+        chain = gen.simple_chain(rng, coin, nblocks, max_tx=2)
+        kw, _desc, _ = layouts.make_layout(rng, chain, coin, assign="contiguous", nfiles=3)
+        datadir.write_datadir(d, COINS[coin], **kw)
+        ref = reference_run(binary, d, coin, cbname, work, None, None)
+        counters["runs"] += 1
+        names = sorted(n for n in os.listdir(d) if n.startswith("blk"))
+        for action in spec["actions"]:
+            dk = os.path.join(work, "dk")
+            shutil.rmtree(dk, ignore_errors=True)
+            datadir.clone_datadir(d, dk)
+            # clone_datadir hard-links the blk files: give this run private copies of the ones it damages
+            victim = os.path.join(dk, names[-1] if action != "shrink-open" else names[0])
+            tmpc = victim + ".priv"
+            shutil.copyfile(victim, tmpc)
+            os.replace(tmpc, victim)
+
+            def damage():
+                if action == "unlink-later":
+                    os.unlink(victim)
+                else:
+                    os.truncate(victim, os.path.getsize(victim) // 2)
+            harness.fresh(dump)
+            p, hitn = core.run_suspended(harness.cli(binary, dk, coin, cbname, dump), {"RAYON_NUM_THREADS": "2", "RBP_VERIF_JITTER": "3"}, log,
+                                         pauses=(0.05,), while_stopped=damage, timeout=300)
+            if p.timed_out:
+                raise Inconclusive("watchdog fired (mid-run fault)")
+            counters["runs"] += 1
+            counters["midrun_faults"] = counters.get("midrun_faults", 0) + 1
+            ev = harness.read_events(log)
+            if hitn:
+                counters["midrun_faults_hit_live_run"] = counters.get("midrun_faults_hit_live_run", 0) + 1
+            what = "%s, %s of %s while the run was suspended after its first blocks (%d blocks, 3 files)" % (cbname, action, os.path.basename(victim), nblocks)
+            vv = []
+            # the later file certainly had not been read completely when the run was stopped after a handful of blocks
+            _judge_failure(p, dump, ref, what, log, vv, bool(hitn) and action in ("unlink-later", "shrink-later") and _not_yet_opened(ev, victim))
+            v.extend(vv)
+            shapes.add("%s|midrun-%s|%s|%s" % (cbname, action, "hit" if hitn else "too-late", "fail" if p.rc else "exit0"))
+            shutil.rmtree(dk, ignore_errors=True)
+    shutil.rmtree(work, ignore_errors=True)
+    return {"evaluations": counters["runs"], "violations": v[:6], "counters": counters, "shapes": sorted(shapes),
+            "sample": {"kind": "midrun:" + kind, "callback": cbname, "coin": coin, "runs": counters["runs"]}}
+
+
+def _not_yet_opened(events, victim):
+    """True when the hook log shows the first stop (the position of the first 'deliver') before any open of the victim file"""
+    base = os.path.basename(victim)
+    for e in events:
+        if e["ev"] == "blk_open" and os.path.basename(e["path"]) == base:
+            return False
+        if e["ev"] == "deliver" and e["height"] >= 5:
+            return True
+    return True
+
+
 def dispatch(spec):
-    return {"input": input_case, "output": output_case, "clean": clean_case}[spec["case"]](spec)
+    return {"input": input_case, "output": output_case, "clean": clean_case, "midrun": midrun_case}[spec["case"]](spec)
 
 
 def plan(chk):
@@ -438,6 +605,18 @@ def plan(chk):
             n += 1
             specs.append(dict(case="clean", callback=cbname, coin=coins[n % 8], seed=chk.seed + rep, chain="clean-%d" % n, n=n, nfiles=1 + rep % 2,
                               blocks=[1, 6, 2, 9][rep], xor=False))
+        # faults that hit many blocks at once, faults of one particular system call on the input files, files that change during the run
+        for i, lost in enumerate([256, 255, 512] if not chk.thorough else [255, 256, 257, 511, 512, 768, 1024]):
+            n += 1
+            specs.append(dict(case="midrun", kind="bulk", callback=cbname, coin=coins[n % 8], seed=chk.seed, n=n, blocks_lost=lost,
+                              start=(None if i % 2 == 0 else 7), end=(None if i % 3 else 20 + lost + 5)))
+        for i in range(3 if chk.thorough else 1):
+            n += 1
+            specs.append(dict(case="midrun", kind="syscall", callback=cbname, coin=coins[n % 8], seed=chk.seed + i, n=n, blocks=12 + 6 * i,
+                              assign=["round_robin", "contiguous", "random"][(ci + i) % 3], xor=(n % 2 == 0), max_k=None if chk.thorough else 10))
+        n += 1
+        specs.append(dict(case="midrun", kind="vanish", callback=cbname, coin=coins[n % 8], seed=chk.seed, n=n, blocks=1500,
+                          actions=["unlink-later", "shrink-later", "shrink-open"] * (3 if chk.thorough else 1)))
         # output faults: small (<4 MB buffer) and large outputs
         for mb, faults in ((None, ["fsize", "inject", "kill"]), (110000, ["fsize", "inject", "kill"])):
             n += 1
@@ -466,7 +645,8 @@ def main():
         chk.absorb(res)
     chk.finish(RULE, floor={"input_faults": 300, "input_faults:truncated": 200, "input_faults:offset-past-eof": 9, "input_faults:emptied": 6,
                             "input_faults:removed": 6, "fsize_faults": 40, "fsize_faults_hit_output": 10, "write_faults_hit": 12, "kill_points_hit": 30,
-                            "trace_events": 30, "max_output_writes_in_one_run": 3},
+                            "trace_events": 30, "max_output_writes_in_one_run": 3, "bulk_faults": 9, "input_syscall_faults_hit": 20,
+                            "midrun_faults_hit_live_run": 3},
                assumptions=["SIGKILL 'at arbitrary times' is enumerated as SIGKILL at every syscall boundary that touches an output path",
                             "torn writes inside the kernel, power loss and fsync semantics are out of scope (not claimed by the property)",
                             "RLIMIT_FSIZE also limits LevelDB's own files: very small limits fail at index open (exit!=0, no output) — counted separately from faults that hit the output"],
@@ -474,4 +654,4 @@ def main():
 
 
 def replay(spec):
-    core.replay_case("C10", {"input": input_case, "output": output_case, "clean": clean_case}, spec)
+    core.replay_case("C10", {"input": input_case, "output": output_case, "clean": clean_case, "midrun": midrun_case}, spec)
